@@ -91,8 +91,23 @@ pub const PRIMES: [u128; 7] = [
     primes::U128_LARGE_4,
 ];
 
+/// a value with exactly `bits` significant bits (reduced modulo `p`)
+fn with_bits(rng: &mut Rng, bits: u32, p: u128) -> u128 {
+    if bits == 0 {
+        return 0;
+    }
+    let r = ((rng.next() as u128) << 64) | rng.next() as u128;
+    let top = 1u128 << (bits - 1);
+    ((r & (top - 1)) | top) % p
+}
+
 fn residue(rng: &mut Rng, p: u128) -> u128 {
-    match rng.below(10) {
+    let pbits = 128 - p.leading_zeros();
+    match rng.below(12) {
+        10 | 11 => {
+            let bits = 1 + rng.below(pbits as u64) as u32;
+            with_bits(rng, bits, p)
+        }
         0 => 0,
         1 => 1,
         2 => 2,
@@ -117,7 +132,20 @@ pub fn ring_lines(rng: &mut Rng, idx: u64) -> Vec<String> {
         0 | 1 => {
             let pi = rng.below(7) as usize;
             let p = PRIMES[pi];
-            let (a, b, c) = (residue(rng, p), residue(rng, p), residue(rng, p));
+            let (mut a, mut b, c) = (residue(rng, p), residue(rng, p), residue(rng, p));
+            // directed family: operand sizes straddling the point where a*b stops fitting in a u128
+            let pbits = 128 - p.leading_zeros();
+            if pbits > 64 && rng.chance(1, 3) {
+                let total = 126 + rng.below(6) as u32; // bit lengths summing to 126..131
+                let la = std::cmp::max(total.saturating_sub(pbits), 1) + rng.below((2 * pbits - total + 1) as u64) as u32;
+                let la = std::cmp::min(la, pbits);
+                let lb = std::cmp::min(total - la, pbits);
+                a = with_bits(rng, la, p);
+                b = with_bits(rng, lb, p);
+                if rng.coin() {
+                    std::mem::swap(&mut a, &mut b);
+                }
+            }
             out.push(ff_dispatch(pi, a, b, c));
         }
         2 => {
